@@ -260,53 +260,54 @@ fn dkim_canonicalize_headers_relaxed(headers: &str) -> String {
     let mut r = String::with_capacity(headers.len());
 
     fn skip_whitespace(h: &str) -> &str {
-        match h.as_bytes().first() {
-            Some(b' ' | b'\t') => skip_whitespace(&h[1..]),
-            _ => h,
-        }
+        h.trim_start_matches([' ', '\t'])
     }
 
-    fn name(h: &str, out: &mut String) {
-        if let Some(name_end) = h.bytes().position(|c| c == b':') {
-            let (name, rest) = h.split_at(name_end + 1);
-            *out += name;
-            // Space after header colon is stripped.
-            value(skip_whitespace(rest), out);
-        } else {
+    // One pass over the text, without recursion: a call per character
+    // overflows the stack on long headers in unoptimised builds
+    let mut h = headers;
+    'headers: loop {
+        // Header name, up to and including the colon
+        let Some(name_end) = h.bytes().position(|c| c == b':') else {
             // This should never happen.
-            *out += h;
+            r += h;
+            break;
+        };
+        let (name, rest) = h.split_at(name_end + 1);
+        r += name;
+        // Space after header colon is stripped.
+        h = skip_whitespace(rest);
+
+        // Header value
+        loop {
+            match h.as_bytes() {
+                // Continuation lines.
+                [b'\r', b'\n', b' ' | b'\t', ..] => {
+                    r.push(' ');
+                    h = skip_whitespace(&h[2..]);
+                }
+                // End of header.
+                [b'\r', b'\n', ..] => {
+                    r += "\r\n";
+                    h = &h[2..];
+                    continue 'headers;
+                }
+                // Sequential whitespace.
+                [b' ' | b'\t', b' ' | b'\t' | b'\r', ..] => h = &h[1..],
+                // All whitespace becomes spaces.
+                [b'\t', ..] => {
+                    r.push(' ');
+                    h = &h[1..];
+                }
+                [_, ..] => {
+                    let mut chars = h.chars();
+                    r.push(chars.next().unwrap());
+                    h = chars.as_str();
+                }
+                [] => break 'headers,
+            }
         }
     }
-
-    fn value(h: &str, out: &mut String) {
-        match h.as_bytes() {
-            // Continuation lines.
-            [b'\r', b'\n', b' ' | b'\t', ..] => {
-                out.push(' ');
-                value(skip_whitespace(&h[2..]), out);
-            }
-            // End of header.
-            [b'\r', b'\n', ..] => {
-                *out += "\r\n";
-                name(&h[2..], out);
-            }
-            // Sequential whitespace.
-            [b' ' | b'\t', b' ' | b'\t' | b'\r', ..] => value(&h[1..], out),
-            // All whitespace becomes spaces.
-            [b'\t', ..] => {
-                out.push(' ');
-                value(&h[1..], out);
-            }
-            [_, ..] => {
-                let mut chars = h.chars();
-                out.push(chars.next().unwrap());
-                value(chars.as_str(), out);
-            }
-            [] => {}
-        }
-    }
-
-    name(headers, &mut r);
 
     r
 }
